@@ -64,6 +64,17 @@ func WarpTargetFullType(targetType string) (string, string) {
 		}
 	}
 
+	// then the class of a package the file imports on demand (`import a.b.*;`), before a class of
+	// that name in a package the file does not import at all
+	for _, pkg := range onDemandImports {
+		for _, clz := range clzs {
+			if clz == pkg+"."+pureTargetType {
+				callType = "chain"
+				return clz, callType
+			}
+		}
+	}
+
 	for _, clz := range clzs {
 		if strings.HasSuffix(clz, "."+pureTargetType) {
 			callType = "same package"
